@@ -26,7 +26,7 @@ enum QOp {
 
 /// ids that are unusual but that nothing documents as invalid: whichever way the service
 /// answers them (queued or rejected) is accepted; what is judged is the queue afterwards
-const ODD_IDS: &[&str] = &["a ", " a", "a\tb", "x y", "é", "日本", "a/b", "..", "A", "-1", "0", "null", "a\u{00a0}"];
+const ODD_IDS: &[&str] = &["a ", " a", "a\tb", "x y", "é", "日本", "a/b", "..", "A", "-1", "0", "null", "a\u{00a0}", "b\n", "\u{feff}c", " d ", "e\u{0000}", "\rf"];
 
 fn valid_doc(rng: &mut Rng, ids: usize, version: &mut u64) -> (Value, QOp) {
   let id = format!("d{}", rng.usize(ids));
@@ -114,7 +114,7 @@ fn main() {
           docs.push((d.to_string(), Some(op)));
         }
         let mut either = false;
-        if rng.chance(0.12) {
+        if rng.chance(0.25) {
           // one document with an unusual id: accepted or rejected, both fine
           let k = rng.usize(docs.len());
           let odd = ODD_IDS[rng.usize(ODD_IDS.len())];
